@@ -79,6 +79,10 @@ class ExprMixin:
             return k("(if {} then (1 : Int) else 0)".format(c))
         if isinstance(t, TOpt) and isinstance(resolve(t.elem), TInt):
             return self.bind("Py.unNone {}".format(c), INT, lambda v, _t: k(v), "v")
+        if isinstance(t, TUnion) and isinstance(resolve(t.a), TInt):
+            # scalar-or-sequence used as a number: a sequence is a TypeError
+            return self.bind("(match {} with | .inl v => Except.ok v | .inr _ => Except.error Err.typeError)".format(c),
+                             INT, lambda v, _t: k(v), "v")
         raise Unsupported("integer expected, got " + t.lean())
 
     def as_list(self, c, t, k):
@@ -157,6 +161,15 @@ class ExprMixin:
             if not vs:
                 tv = TVar()
                 return k("([] : List {})".format(TyRef(tv)), TList(tv))
+            if any(isinstance(resolve(tc), TUnion) for _, tc in vs) and \
+                    all(isinstance(resolve(tc), TInt) or (isinstance(resolve(tc), TUnion) and isinstance(resolve(resolve(tc).a), TInt))
+                        for _, tc in vs):
+                # a list of literals: an entry computed by `group(i, j)` must be the scalar (an iterable is a TypeError)
+                def ints_(i, acc):
+                    if i == len(vs):
+                        return k("[" + ", ".join(acc) + "]", TList(INT))
+                    return self.as_int(vs[i][0], vs[i][1], lambda v: ints_(i + 1, acc + [v]))
+                return ints_(0, [])
             t = vs[0][1]
             for _, t2 in vs[1:]:
                 t = join(t, t2)
